@@ -220,6 +220,62 @@ def c04(ctx):
                   exhaustive=True)
 
 
+# ----------------------------------------------------------------------------- C01
+ALL_FLOWS = ["msg", "detached", "helper", "sign", "sigalone", "cs", "cs0"]
+
+
+def c01_cases(ctx):
+    cases = []
+    def g(algs, flows, ns, hs):
+        consts = dict(AlgNs=tlanums([-1 - a for a in algs]), Flows=tlaset(flows), PayloadNs=tlanums(ns), HdrIds=tlanums(hs))
+        return gen(ctx, "Gen_C01", cfgtext(invariants=["Emit"], constants=consts), timeout=3000, heap="8g")
+    if ctx.quick():
+        cases += g([-7, -8], ALL_FLOWS, [0, 1, 24, 256], [1, 2, 3, 4])
+        cases += g([-7], ["msg", "detached", "helper"], [23, 255, 65535, 65536], [2, 5, 6])
+        cases += g([-35, -36, -37, -38, -39], ["msg", "sign", "cs", "cs0"], [2], [1, 4])
+    else:
+        cases += g([-7, -8, -35, -36], ALL_FLOWS, [0, 1, 23, 24, 255, 256], [1, 2, 3, 4, 5, 6])
+        cases += g([-37, -38, -39], ALL_FLOWS, [0, 24, 256], [1, 2, 4])
+        cases += g([-7, -8, -37], ["msg", "detached", "helper", "sign"], [65535, 65536], [2, 5, 6])
+    return cases
+
+
+@prop("C01")
+def c01(ctx):
+    cases = c01_cases(ctx)
+    events = harness(ctx, ["exec", "memflow"], cases)
+    slim = [dict(flow=e["flow"], kind=e["kind"], alg=e["alg"], kk=e["kk"], h=e["h"], n=e["n"],
+                 obs=[dict(op=o["op"], res=o["res"]) for o in e["obs"]]) for e in events]
+    rejects = judge(ctx, "Trace_C01", slim)
+    return report(ctx, slim, rejects,
+                  nontrivial=lambda e: any(o["op"] in ("sign", "countersign", "countersign0", "sign1helper", "sign1untaggedhelper") and o["res"] == "ok" for o in e["obs"]),
+                  key=lambda e: json.dumps([e["flow"], e["kind"], e["alg"], e["kk"], e["h"], e["n"], [o["op"] for o in e["obs"]]]) + str(id(e)),
+                  rule="TLC enumerates happy-path programs: flow (Sign1 method / detached payload / Sign1 helpers / COSE_Sign with 1-3 signers / standalone "
+                       "Signature / full and abbreviated countersignature over each of the 4 parent kinds in pointer and value form, standalone, nested "
+                       "in the parent, and over the decoded parent) x algorithm x key provenance (native, rebuilt from COSE_Key, opaque crypto.Signer) x "
+                       "header shape (incl. alg omitted, 255/256-byte protected maps, nested values) x payload size class (0..65536) x external data "
+                       "(nil/empty/non-empty); run with real fixture keys; TLC judges every step; non-trivial = the first signing step succeeded",
+                  exhaustive=True)
+
+
+# ----------------------------------------------------------------------------- C20
+@prop("C20")
+def c20(ctx):
+    consts = dict(MaxSigners=4 if ctx.quick() else 5)
+    cases = gen(ctx, "Gen_C20", cfgtext(invariants=["Emit"], constants=consts), timeout=3000, heap="8g")
+    events = harness(ctx, ["exec", "memflow"], cases)
+    rejects = judge(ctx, "Trace_C20", events)
+    return report(ctx, events, rejects,
+                  nontrivial=lambda e: any(f != "" for f in e["fs"]) or e["flow"] == "entropy",
+                  key=lambda e: json.dumps([e["flow"], e["shape"], e["fs"], e["steps"][-1].get("rand"), [s.get("signers", [{}])[-1].get("alg") for s in e["steps"] if "signers" in s]]),
+                  rule="TLC enumerates every fault vector over {ok, error, empty signature, nil signature, bytes+error} for the signer calls of Sign1Message.Sign "
+                       "(tagged/untagged), the Sign1 helpers, SignMessage.Sign (1..n signers), Signature.Sign, Countersignature.Sign, Countersign0 and "
+                       "SignHashEnvelope, each followed by serialisation; every vector over {answers, error} for the verifier calls of the matching Verify; "
+                       "built-in ES256/ES512/PS256/EdDSA signers with entropy sources failing at once / after k bytes / short-reading; non-trivial = at "
+                       "least one fault injected",
+                  exhaustive=True)
+
+
 def setup():
     ctx = Ctx("setup", "quick", 1)
     try:
